@@ -151,7 +151,34 @@ def pt_worker(_):
     return {"rows": rows, "functions": sorted(it.functions_entered)}
 
 
-def check(ctx, rep: Report):
+
+def pt_rule(ctx, rep, rule="C02.PT"):
+    # ---- C02.PT
+    rep.rules[rule] = "protect_via_deepcopy: returns its argument only for immutable atom types; otherwise a deep copy"
+    r = pmap(pt_worker, [0])[0]
+    rep.functions |= set(r["functions"])
+    rep.evaluations += len(r["rows"])
+    bad = []
+    ncopy = 0
+    for row in r["rows"]:
+        if row["kind"] != "ok":
+            continue
+        if row["ret"] == "obj":
+            if "obj" not in row["imm"]:
+                bad.append(f"passes through non-immutable type(s) {row['types_true'] or 'unconditionally'}")
+        else:
+            ncopy += 1
+            if "FRESH" not in row["ret_prov"]:
+                bad.append(f"returns {row['ret']} {row['ret_prov']}")
+    if ncopy == 0:
+        bad.append("no path deep-copies the argument")
+    rep.oblige(rule, "protect_via_deepcopy", not bad, "; ".join(bad[:3]))
+    rep.sample({"entry": "protect_via_deepcopy", "rows": r["rows"][:3]})
+    for b in sorted(set(bad)):
+        rep.violate(Violation(rule, f"{rule}|{b[:70]}", b, "", "protect_via_deepcopy", [], "protect_via_deepcopy"))
+
+
+def _check_main(ctx, rep: Report):
     rep.rules["C02.S"] = ("per helper, _inplace=False: no write into a fresh object stores a receiver-reachable, "
                           "non-immutable value; the helper does not return a receiver-reachable part; "
                           "non-trivial = path with such a store")
@@ -241,29 +268,7 @@ def check(ctx, rep: Report):
     for b in sorted(set(bad)):
         rep.violate(Violation("C02.DC", f"C02.DC|{b[:70]}", b, "", "DeepCopyMethod.deepcopy", [], "deepcopy"))
 
-    # ---- C02.PT
-    rep.rules["C02.PT"] = "protect_via_deepcopy: returns its argument only for immutable atom types; otherwise a deep copy"
-    r = pmap(pt_worker, [0])[0]
-    rep.functions |= set(r["functions"])
-    rep.evaluations += len(r["rows"])
-    bad = []
-    ncopy = 0
-    for row in r["rows"]:
-        if row["kind"] != "ok":
-            continue
-        if row["ret"] == "obj":
-            if "obj" not in row["imm"]:
-                bad.append(f"passes through non-immutable type(s) {row['types_true'] or 'unconditionally'}")
-        else:
-            ncopy += 1
-            if "FRESH" not in row["ret_prov"]:
-                bad.append(f"returns {row['ret']} {row['ret_prov']}")
-    if ncopy == 0:
-        bad.append("no path deep-copies the argument")
-    rep.oblige("C02.PT", "protect_via_deepcopy", not bad, "; ".join(bad[:3]))
-    rep.sample({"entry": "protect_via_deepcopy", "rows": r["rows"][:3]})
-    for b in sorted(set(bad)):
-        rep.violate(Violation("C02.PT", f"C02.PT|{b[:70]}", b, "", "protect_via_deepcopy", [], "protect_via_deepcopy"))
+    pt_rule(ctx, rep)
 
 
     # ---- C02.DEF: fresh defaults (reset_* / del / constructor rely on it); shared with C08.FR
@@ -281,3 +286,9 @@ def check(ctx, rep: Report):
         for b in sorted(set(bad)):
             rep.violate(Violation("C02.DEF", f"C02.DEF|Attr.{r['which']}|{b[:60]}", f"Attr.{r['which']} {b}: instances obtained by reset_<attr>() / reset() / construction share the class-level object",
                                   "", f"Attr.{r['which']}"))
+
+
+def check(ctx, rep):
+    from . import metarules, shared
+    _check_main(ctx, rep)
+    metarules.attr_spec_writers(ctx, rep, "C02.SPEC")
